@@ -59,7 +59,7 @@ package y
 //@   ensures[size] result == uint32(len(v.Value) + 2 + ulen(v.ExpiresAt))
 //@   ensures[meta] b[0] == v.Meta && b[1] == v.UserMeta
 //@   ensures[expiry] uvLen(b[2:]) == ulen(v.ExpiresAt) && uvVal(b[2:]) == v.ExpiresAt
-//@   ensures[value] bytes(b[2+ulen(v.ExpiresAt) : 2+ulen(v.ExpiresAt)+len(v.Value)]) == bytes(old(v.Value))
+//@   ensures[value] bytes(b[2+ulen(v.ExpiresAt) : 2+ulen(v.ExpiresAt)+len(v.Value)]) == old(bytes(v.Value))
 //@   assigns b[0 : len(v.Value) + 2 + ulen(v.ExpiresAt)]
 
 //@ func (*ValueStruct).Decode
@@ -85,7 +85,7 @@ package y
 //@   ensures[len] len(overall) == n + len(b) && len(trailer) == n
 //@   ensures[trailer] trailer == overall[len(b):]
 //@   ensures[zero] forall i int :: 0 <= i && i < n ==> trailer[i] == 0
-//@   ensures[prefix] bytes(overall[:len(b)]) == bytes(old(b))
+//@   ensures[prefix] bytes(overall[:len(b)]) == old(bytes(b))
 //@   ensures[alias] fresh(overall) || overall == b[:n+len(b)]
 //@   assigns b[len(b):cap(b)]
 //@   loop 1 invariant[zeroed] -1 <= rangeindex && rangeindex < n && forall i int :: 0 <= i && i <= rangeindex ==> trailer[i] == 0
